@@ -27,7 +27,7 @@ func C01(r *core.Report) {
 	c01CodecWidths(r)
 	c01CodecRoundTrip(r)
 	c01ScratchDirsUnique(r)
-	r.Floor("C01.R6", 2)
+	r.Floor("C01.R6", 1)
 	c01WriterNarrowing(r)
 	c01NoGuardRejectsFirstObject(r)
 	c14NoPooledAliasAs(r, "C01.R9")
@@ -36,9 +36,9 @@ func C01(r *core.Report) {
 	r.Floor("C01.R8", 1)
 	c01SharedWrites(r)
 	c01WriterLifecycle(r)
-	r.Floor("C01.R1", 12)
-	r.Floor("C01.R2", 4)
-	r.Floor("C01.R3", 7)
+	r.Floor("C01.R1", 11)
+	r.Floor("C01.R2", 3)
+	r.Floor("C01.R3", 5)
 	r.Floor("C01.R4", 1)
 	r.Floor("C01.R5", 6)
 	r.Floor("C01.R7", 3)
